@@ -40,7 +40,7 @@ let item_str (ch, a) = Printf.sprintf "r %d %s" (int_of_z ch) (hex_of_bytes a)
 
 let parse_model st =
   let rec go c n =
-    if n > 400 then emit "! runaway" else
+    if n > 4000 then emit "! runaway" else
     match read st.table c with
     | Oob -> emit "! oob"
     | Fuel -> emit "! timeout"
@@ -104,7 +104,12 @@ let launch is_model st toks =
         | "list" -> launch_ref_list first st.strs st.env
         | "argv0" -> launch_ref_argv0 first st.strs st.env
         | _ -> launch_ref_argv first st.strs st.env in
-      emit (exec_str x code mode size profile)
+      if form = "cmd" && not (in_class first) then
+        (* a command line outside the property's class (leading / trailing / doubled unquoted space, open quote):
+           which words the child gets is not said *)
+        emit (Printf.sprintf "L ok argv=? env=%s join=1 exit=? running=0 out=? err=? io=ok%s"
+                (match x.x_env with None -> "inherit" | Some l -> hexlist l) (if profile = "again" then " again=0,0,0,0" else ""))
+      else emit (exec_str x code mode size profile)
     end
   | _ -> failwith "bad launch op"
 
@@ -227,6 +232,10 @@ let pobj_op is_model st opname (args : string list) =
   let running l = (match l with LIdle -> 0 | LRunning _ -> 1) in
   (* join() without arguments does not hand out the exit code *)
   let res_text r = let r = seen op r in if opname = "pjoin0" then (match r with RJoin _ -> "1" | _ -> res_str r) else res_str r in
+  (* reference side: a child ended by a signal has no exit code - join says "joined", the number is not specified *)
+  let res_text_spec r = (match seen op r with
+      | RJoin _ when opname = "pjoin" && not (join_code_specified op) -> "1:?"
+      | _ -> res_text r) in
   (* model-only: the errno class a failed call leaves - EINVAL where the object itself declines, the kernel's otherwise *)
   let errno_class (r : pres) = (match r with
       | RRefused -> "EINVAL"
@@ -259,7 +268,7 @@ let pobj_op is_model st opname (args : string list) =
             (nzb s'.p_out) (nzb s'.p_err) (nzb s'.p_in) (errno_class r)
             (if evs = [] then "-" else String.concat "," evs))
   end else
-    emit (Printf.sprintf "%s %s run %d held %s stray 0 in0 %s" opname (if stream_open then res_text lr else "?") (running lst')
+    emit (Printf.sprintf "%s %s run %d held %s stray 0 in0 %s" opname (if stream_open then res_text_spec lr else "?") (running lst')
             (if st.leaky then "?" else string_of_int (int_of_nat (lheld lst'))) (if stream_open then "0" else "?"))
 
 (* Process::wait(&object, 1) / Process::interrupt(): not part of the Coq model; what is expected is worked out here
@@ -309,7 +318,9 @@ let on_op is_model st _ toks =
    | ["split"; h] ->
      if is_model then (match split_model (bytes_of_hex h) with
          | Ok ws -> emit (words_str ws) | Oob -> emit "! oob" | Fuel -> emit "! timeout")
-     else emit (words_str (split_ref (bytes_of_hex h)))
+     else (match split_seen (bytes_of_hex h) with
+         | Some ws -> emit (words_str ws)
+         | None -> emit "words ??*")        (* outside the property's class of command lines: any word list *)
    | "launch" :: _ -> launch is_model st toks
    | "rt" :: joined :: words -> roundtrip is_model joined words
    | ["ev"; e] -> env_entry st (bytes_of_hex e)
